@@ -112,6 +112,58 @@ pub fn run(rec: &mut Recorder, w: &mut World, tier: &str, seed: u64) {
         rec.nontrivial_case(&format!("2|{}|{}|{}", what, fault, before));
         if li == 0 { rec.sample(format!("{} with fault {} after state {}", what, fault, before)); }
     }
+    // ---- (4) a save_policy that fails leaves the store holding the old policy: (a) the adapter reports an error;
+    //      (b) the file / string adapter refuses the model (no policy definition: a membership-only model) ----
+    {
+        let nop = ModelDef {
+            r: vec![("r".into(), sv(&["sub", "role"]))], p: vec![], g: vec![("g".into(), 2)],
+            e: vec![("e".into(), E_ALLOW.into())],
+            m: vec![("m".into(), "(g2 g (r 0) (r 1))".into(), "g(r.sub, r.role)".into())], tbl: vec![],
+        };
+        let stored = vec![sv(&["g", "g", "alice", "admin"]), sv(&["g", "g", "bob", "auditor"]), sv(&["g", "g", "admin", "staff"])];
+        let text = "g, alice, admin\ng, bob, auditor\ng, admin, staff\n";
+        let n4 = (if tier == "thorough" { 60 } else { 12 }) * rec.budget as usize;
+        for it in 0..n4 {
+            for kind in ["string", "file", "memory"] {
+                for refused_model in [true, false] {
+                    rec.begin();
+                    let mm = if refused_model { nop.clone() } else { m.clone() };
+                    if new_enforcer(rec, w, &mm, kind, &stored, text, false) != "ok" { rec.count("new:failed"); continue; }
+                    let first = rec.exec(w, "e.pol");
+                    // edits that stay in memory (auto-save off; an empty history on the first round)
+                    rec.exec(w, "e.auto\tsave\tfalse");
+                    let mut edits = vec![];
+                    if it > 0 {
+                        for _ in 0..1 + rng.below(4) {
+                            let a = *rng.pick(&["alice", "bob", "carol", "admin"]); let b = *rng.pick(&["admin", "staff", "auditor"]);
+                            let op = if rng.chance(1, 2) { format!("e.add\tg\tg\t{}", enc_list(&sv(&[a, b]))) } else { format!("e.rm\tg\tg\t{}", enc_list(&sv(&[a, b]))) };
+                            rec.exec(w, &op); edits.push(op.replace('\t', " "));
+                        }
+                        if it % 5 == 4 { rec.exec(w, "e.clear"); edits.push("e.clear".into()); }
+                    }
+                    let in_memory = rec.exec(w, "e.pol");
+                    let must_fail = if refused_model { kind != "memory" } else { rec.exec(w, "e.fault\terr"); true };
+                    let out = rec.exec(w, "e.save");
+                    rec.exec(w, "e.fault\t-");
+                    let after_mem = rec.exec(w, "e.pol");
+                    let lo = rec.exec(w, "e.load");
+                    let reloaded = rec.exec(w, "e.pol");
+                    let descr = format!("{} adapter, {}, edits [{}]", kind, if refused_model { "model without a policy definition" } else { "adapter reports an error" }, edits.join(" ; "));
+                    if must_fail {
+                        if !out.starts_with("err") { rec.fail("save-fault-not-reported", format!("{}: save_policy returned {}", descr, out)); }
+                        if after_mem != in_memory { rec.fail("failed-save-changed-state", format!("{}: in memory {} became {}", descr, in_memory, after_mem)); }
+                        if lo != "ok" || reloaded != first { rec.fail("failed-save-damaged-store", format!("{}: the store held {} and after the failed save a load ({}) gives {}", descr, first, lo, reloaded)); }
+                        rec.count(&format!("save-fault:{}:{}", kind, if refused_model { "model-refused" } else { "adapter-error" }));
+                    } else {
+                        if out != "ok" || lo != "ok" || reloaded != in_memory { rec.fail("save-load-differs", format!("{}: saved {} ({}), loaded ({}) {}", descr, in_memory, out, lo, reloaded)); }
+                        rec.count(&format!("save-ok:{}", kind));
+                    }
+                    rec.nontrivial_case(&format!("4|{}", descr));
+                    if it == 1 && kind == "string" { rec.sample(descr.clone()); }
+                }
+            }
+        }
+    }
     // ---- (3) file save interrupted after every byte count (RLIMIT_FSIZE in a child process) ----
     let olds: Vec<Vec<Vec<String>>> = vec![vec![sv(&["alice", "data1", "read"]), sv(&["bob", "data2", "write"])], vec![], vec![sv(&["é", "a,b", "x"])]];
     let news: Vec<Vec<Vec<String>>> = vec![vec![sv(&["carol", "data3", "read"]), sv(&["dave", "d,4", "write"]), sv(&["erin", "data5", "exec"])], vec![sv(&["z", "z", "z"])]];
